@@ -4,6 +4,7 @@ separate caches and workspaces) and through Build.v in both modes; the two runs 
 other (model-free) and each with the model."""
 import copy, json, os, shutil
 import vlib, buildlib as bl, histcheck as hc
+import c15_depload
 
 GUARDS = [("minimal-reruns-nocache-dependency", hc.g_no_nocache)]
 
@@ -156,7 +157,15 @@ def witness_rerun_fails(out):
     return evals
 
 
+def depload_stage(out, tier):
+    """Concurrency of dependency loading (Build.v is sequential): k dependants of one cache-hit dependency race on loading its
+    outputs.  Deterministic schedules on the real Executor/Registry (harness/go/depload) against coq/theories/DepLoad.v, see
+    tools/c15_depload.py.  Runs first: its violations carry a failing schedule and are listed first."""
+    return c15_depload.stage(out, tier)
+
+
 def run(out, tier):
+    dl = depload_stage(out, tier)
     n = 22 if tier == "quick" else 500
     r = vlib.Rng(vlib.seed() * 7919 + 15)
     scripts = []
@@ -185,7 +194,7 @@ def run(out, tier):
     batch = hc.run_batch(plans, vlib.seed())
     hc.check_plan_errors(batch)
     findings = {f["class"]: f for f in vlib.known_findings("C15")}
-    evals = witness_rerun_fails(out)
+    evals = witness_rerun_fails(out) + (len(dl[0]) if dl else 0)
     for k in range(0, len(batch), 2):
         (na, ha, _, ma), (nm, hm, _, mm) = batch[k], batch[k + 1]
         # builds that follow a cache fault: mode all has to re-execute every selected target whose outputs it cannot restore,
@@ -235,4 +244,6 @@ def run(out, tier):
 
 def replay(out, path):
     rp = json.load(open(path))["replay"]
+    if rp.get("stage") == "depload":
+        return c15_depload.replay(out, rp)
     print(json.dumps(rp.get("description"), indent=1)); print(json.dumps(rp.get("observed"), indent=1)[:3000])
